@@ -280,6 +280,9 @@ BASE_PROGRAMS = PROGRAMS + [
     "def greet(name='you', *rest, **extra):\n    return 'hi ' + name\n",
     "a = 1\nb = 2\nprint(b)\ndone()\nprint(a)\n",
     "try:\n    n = int(text)\nexcept ValueError:\n    n = 0\n    fixed = n + 1\nfinally:\n    shown = n\n",
+    # compact layouts: one-line suites and ;-joined statements (the tree is the same as with one statement per line)
+    "total = 0\nfor v in vals:\n    if v < 0: continue\n    total += v\nprint(total); print(vals)\n",
+    "x = 1; y = 2\nif x: y = 3\nelse: y = 4\ndef f(): return y\nprint(f())\n",
 ]
 
 
